@@ -294,6 +294,7 @@ def run_and_judge(ctx, cases, prop="C07", use_model=True, only_independence=Fals
         keys = [f[0] for f in oracle(ctx, c, r, prop)]
         confirmed[id(c)] = keys
     seen = set()
+    pending.sort(key=lambda p: (p[0], p[3]["rq"] < 64, p[3]["rq"]))   # prefer a witness with a realistic limit
     for key, detail, red, orig in pending:
         case = orig
         if red is not None and red is not orig and key in confirmed.get(id(red), []):
